@@ -112,6 +112,9 @@ fn main() {
     let ops: u64 = arg("--ops").and_then(|s| s.parse().ok()).unwrap_or(50);
     let keys: u64 = arg("--keys").and_then(|s| s.parse().ok()).unwrap_or(10);
     let sessions: u64 = arg("--sessions").and_then(|s| s.parse().ok()).unwrap_or(2);
+    // bursts per session: all clients run ops/rounds operations, then the driver waits for quiescence
+    // (one `quiescent` driver event per burst: where DirtyBoundedAtQuiescence is evaluated)
+    let rounds: u64 = arg("--rounds").and_then(|s| s.parse().ok()).unwrap_or(1).max(1);
     let deadline: u64 = arg("--deadline-s").and_then(|s| s.parse().ok()).unwrap_or(60);
     let out = arg("--out").expect("--out");
     let dir = scratch_root().join(format!("conc-{}", std::process::id()));
@@ -128,6 +131,7 @@ fn main() {
     let mut total_ops = 0u64;
     for session in 0..sessions {
         let (cfg2, dir2, log2, pl2, no2) = (cfg.clone(), dir.clone(), log.clone(), payloads.clone(), next_op.clone());
+        let rec_q = rec.clone();
         let res: Result<(), String> = rt.block_on(async move {
             let mut d = Driver::<N>::new(cfg2.clone(), dir2.clone(), keys);
             d.open(false).await?;
@@ -136,17 +140,20 @@ fn main() {
                 tokio::time::sleep(Duration::from_millis(260)).await;
             }
             let st = Arc::new(d.storage.take().unwrap());
-            let done = Arc::new(AtomicU64::new(0));
-            let mut handles = Vec::new();
-            for c in 0..clients {
-                handles.push(tokio::spawn(client(c + 1, st.clone(), log2.clone(), ops, keys, cfg2.seed * 7919 + session * 1000 + c, no2.clone(), pl2.clone(), done.clone())));
+            for round in 0..rounds {
+                let done = Arc::new(AtomicU64::new(0));
+                let mut handles = Vec::new();
+                for c in 0..clients {
+                    handles.push(tokio::spawn(client(c + 1, st.clone(), log2.clone(), (ops / rounds).max(1), keys, cfg2.seed * 7919 + session * 1000 + round * 100_000 + c, no2.clone(), pl2.clone(), done.clone())));
+                }
+                let all = async { for h in handles { let _ = h.await; } };
+                if tokio::time::timeout(Duration::from_secs(deadline), all).await.is_err() {
+                    return Err(format!("deadlock: {} of {} clients did not finish within {} s (probe: msgs={} blocking={})", clients - done.load(Ordering::SeqCst), clients, deadline,
+                        pearl::verif::PROBE.msgs.load(Ordering::SeqCst), pearl::verif::PROBE.blocking.load(Ordering::SeqCst)));
+                }
+                wait_quiescent(rounds == 1, Duration::from_secs(60)).await?;
+                rec_q.driver_event("quiescent", "", -1, true, 0);
             }
-            let all = async { for h in handles { let _ = h.await; } };
-            if tokio::time::timeout(Duration::from_secs(deadline), all).await.is_err() {
-                return Err(format!("deadlock: {} of {} clients did not finish within {} s (probe: msgs={} blocking={})", clients - done.load(Ordering::SeqCst), clients, deadline,
-                    pearl::verif::PROBE.msgs.load(Ordering::SeqCst), pearl::verif::PROBE.blocking.load(Ordering::SeqCst)));
-            }
-            wait_quiescent(true, Duration::from_secs(60)).await?;
             finals(&st, &log2, keys, &pl2).await;
             let st = Arc::try_unwrap(st).map_err(|_| "storage still shared".to_string())?;
             st.close().await.map_err(|e| format!("close: {e:#}"))?;
@@ -167,7 +174,16 @@ fn main() {
     // merge the hook events (appends with their operation ids) with the driver's log
     let mut lines = std::mem::take(&mut *log.lines.lock().unwrap());
     let mut commits = 0u64;
-    for e in rec.drain() {
+    let all_events = rec.drain();
+    if let Some(io_out) = arg("--io-out") {
+        // the complete file-operation trace of the concurrent run, for TraceIO (C12 over schedules)
+        use std::io::Write;
+        let mut w = std::io::BufWriter::new(std::fs::File::create(&io_out).expect("io-out"));
+        let limit = cfg.dirty_limit.unwrap_or(1 << 30) as i64;
+        let _ = writeln!(w, "{}", tap::base_event(0, "reset", "", "", -1, "", 0, 0, limit, "", false));
+        for e in all_events.iter() { let _ = writeln!(w, "{}", e); }
+    }
+    for e in all_events {
         if e["ev"] == "append" {
             commits += 1;
             let seq = e["seq"].as_u64().unwrap_or(0);
